@@ -45,7 +45,7 @@ REFS = {
     'mystic.math.measures:_unpack.recurse':
         'def recurse(next):\n    if next == ndim:\n        return\n    else:\n        temp[next] = temp[next - 1] * npts[next]\n        currentindex = temp[next]\n        lastindex = temp[next - 1]\n        _samples.append([j[next] for j in samples][:currentindex:lastindex])\n        recurse(next + 1)\n',
     'mystic.math.measures:_flat':
-        'def _flat(params):\n    from mystic.tools import flatten, list_or_tuple_or_ndarray\n    return list(flatten(params, to_expand=list_or_tuple_or_ndarray))\n',
+        'def _flat(params):\n    from mystic.tools import flatten, list_or_tuple_or_ndarray\n    expand = lambda x: list_or_tuple_or_ndarray(x) and getattr(x, \'ndim\', 1) > 0\n    return list(flatten(params, to_expand=expand))\n',
     'mystic.math.measures:_nested':
         'def _nested(params, npts):\n    coords = []\n    ind = 0\n    for i in range(len(npts)):\n        coords.append(params[ind:ind + npts[i]])\n        ind += npts[i]\n    return coords\n',
     'mystic.math.discrete:product_measure.flatten':
